@@ -18,6 +18,7 @@ sp = pm.sp
 
 def make(P, f=lambda w: w):
     z = [f(complex(p[0], p[1])) for p in P]
+    z = pm.typed(z)
     return {2: sp.Line, 3: sp.QuadraticBezier, 4: sp.CubicBezier}[len(z)](*z)
 
 
